@@ -51,7 +51,7 @@ def small_model(rng):
         pass
     return m
 
-STYLES = ["1.1", "1.1", "1.1c", "1.1c", "1.1i", "1.1u", "1.0"]
+STYLES = ["1.1", "1.1", "1.1c", "1.1c", "1.1i", "1.1u", "1.1m", "1.1m", "1.0"]
 REDESC = ["identity", "vertex_perm", "triangle_order", "triangle_rotation", "mesh_flip", "local_flips", "local_flips", "mesh_order", "interface_order",
           "domain_order", "boundary_order", "rename"]
 
@@ -107,6 +107,12 @@ def make_case(ck, cid, m, style, old, nprobes, rng, has_cond=True, cond_extra=No
         mm["interfaces"] = [(inn[k], [(+1, mn[k])]) for k in range(len(m["interfaces"]))]
         ren = {n: inn[k] for k, (n, _) in enumerate(m["interfaces"])}
         mm["domains"] = [(n, [(s, ren.get(i, i)) for s, i in bs]) for n, bs in m["domains"]]
+    elif style == "1.1m":
+        mn, inn = T["mesh_names"], T["iface_names"]
+        rm = {n: mn[k] for k, (n, _, _) in enumerate(m["meshes"])}; ri = {n: inn[k] for k, (n, _) in enumerate(m["interfaces"])}
+        mm["meshes"] = [(mn[k], vs, ts) for k, (_, vs, ts) in enumerate(m["meshes"])]
+        mm["interfaces"] = [(inn[k], [(s, rm.get(x, x)) for s, x in ms]) for k, (_, ms) in enumerate(m["interfaces"])]
+        mm["domains"] = [(n, [(s, ri.get(i, i)) for s, i in bs]) for n, bs in m["domains"]]
     elif style == "1.1u":
         rm = {n: mn[k] for k, (n, _, _) in enumerate(m["meshes"])}; ri = {n: inn[k] for k, (n, _) in enumerate(m["interfaces"])}
         mm["meshes"] = [(mn[k], vs, ts) for k, (_, vs, ts) in enumerate(m["meshes"])]
@@ -321,6 +327,9 @@ def property_failures(c, ii, if_):
                     raise StopIteration
     except StopIteration: pass
     except Exception: pass
+    if D["rest"] and D["rest"][-1] != 0:
+        bad.append(("orientation: stored normals disagree with the vertex order (%s)" % tagk,
+                    "%d triangles carry a normal / area that does not match their vertex order after the load (the local repair flipped them)" % D["rest"][-1]))
     if c["probes"]:
         got = D["rest"][:len(c["probes"])]
         for p, gk, hits in zip(c["probes"], got, expected_domains(c)):
